@@ -259,9 +259,9 @@ def injections(gen, cid, o):
                 def tlinner(x, which):
                     tlreg(x)
                     if which == "ref":
-                        at(x, path)["t_ref"] = {"source_name": "s", "url": "https://example.com/x", "x_inner": 1}
+                        at(x, path)["t_extref"] = {"source_name": "s", "url": "https://example.com/x", "x_inner": 1}
                     elif which == "ref-clean":
-                        at(x, path)["t_ref"] = {"source_name": "s", "url": "https://example.com/x"}
+                        at(x, path)["t_extref"] = {"source_name": "s", "url": "https://example.com/x"}
                     else:
                         at(x, path)["t_hashes"] = {"SHA-256": "aec070645fe53ee3b3763059376134f058cc337247c978add178b6ccdfb0019f",
                                                    "x_custom_hash": "abcd"}
@@ -597,6 +597,9 @@ def check(run):
     variants = sc.detect_variants(run)
     cases, site_hist = gen_cases(run, per_class)
     results = common.run_impl("c04_impl", cases)
+    regerr = [o["registration_error"] for o in results if o.get("registration_error")]
+    if regerr:
+        run.broken.append(Broken("oracle", "the custom types / extensions of the oracle worker could not be registered", {"error": regerr[0]}))
     stats = {"strict_refused_custom": 0, "allow_objects": 0, "allow_flagged": 0, "allow_refused": 0}
     for c, o in zip(cases, results):
         run.count(c, nontrivial=bool(c["custom"] or o.get("allow_is_obj") or o.get("strict_is_obj")))
